@@ -166,7 +166,8 @@ check("C17", "model_checking",
 check("C18", "model_checking",
       "One real query Processor (three views: coordinator/leader shard, follower helper/leader shard, non-leader shard) wired to "
       "in-memory MPC and shard networks with scripted peers; BFS over histories of 13 request kinds (create start/finish with "
-      "accept/reject, prepare helper/shard, inputs, injected task + task returns ok/err, status with every peer-shard answer, "
+      "accept/reject, prepare helper/shard, inputs, injected task + task returns ok/err, status with every pair of answers of the "
+      "two peer shards (3 shards: 36 combinations), "
       "shard status with every claimed status, complete with shard accept/reject, poll parked completion, kill - including kill "
       "while a completion request or a create request is parked, after which the abandoned request, the end of the killed query's task and any new "
       "query are interleaved in every order) to depth 9 (12); failing transitions are recorded and the search continues; "
@@ -183,7 +184,7 @@ check("C18", "model_checking",
       text="All request histories up to the depth bound are executed against the real Processor and compared call by call with a "
            "reference lifecycle model: forward-only states, invalid requests answered with an error and leaving the state "
            "unchanged, failed creation leaving no trace, results handed out once, min-over-shards status, no panic.",
-      note="Depth 9 (quick) / 12 (thorough); one query id (QueryId is a unit type); 2 shards.")
+      note="Depth 9 (quick) / 12 (thorough); one query id (QueryId is a unit type); 3 shards.")
 
 check("C09", "exploration",
       "every byte string of the advertised size for the value types of <= 3 bytes (Fp31, Boolean, Gf2/3/8/9/20Bit, BA3..BA8, BA16, "
